@@ -15,6 +15,8 @@ Denotes(e) ==
   IF PLeafTable(e.P, e.P.top, <<>>) # LeafTable(e.D, e.D.top, <<>>) THEN "leaf_table"
   ELSE IF PObservables(e.P) # Observables(e.D) THEN "observables"
   ELSE IF PkgDenote(e.P) # Denote(e.D) THEN "partition"
+  \* the same leaf devices WITH THE SAME PARAMETERS: every leaf the designer gave parameter values carries exactly those in the package
+  ELSE IF ~(LeafParams(e.D, e.D.top, <<>>) \subseteq PLeafParams(e.P, e.P.top, <<>>)) THEN "leaf_parameters"
   \* where the driver also netlisted the package: the SPICE text, read by position, must describe the same circuit (this checks on real
   \* netlists the reading convention PkgDenote assumes, and C01's "and therefore every netlist")
   ELSE IF "N" \in DOMAIN e THEN NetlistDiff(e.N, e.P)
